@@ -587,8 +587,13 @@ func (ex *Executor) selectField(base Val, idx int, env *SpecEnv) (Val, error) {
 		if base.P != nil && base.P.Kind == PField {
 			bf := structOf(base.P.Owner).Field(base.P.Field)
 			ref = ex.subRef(env.st, base.P.Owner, bf.Name(), base.P.Base)
+		} else if base.T == nil && base.P != nil && (base.P.Kind == PCell || base.P.Kind == PRef) {
+			ref = base.P.Base // pointer to a struct that lives in a local cell
 		} else {
 			ref = base.T
+		}
+		if ref == nil {
+			return Val{}, fmt.Errorf("field %s of a pointer without a value", f.Name())
 		}
 		if isStruct(f.Type()) {
 			// embedded struct by value: address it
@@ -720,6 +725,20 @@ func (ex *Executor) evalCallSpec(e *SExpr, env *SpecEnv) (Val, error) {
 			return Val{}, fmt.Errorf("fresh() outside a postcondition")
 		}
 		return specBool(And(Gt(a.T, env.oldAlloc), Le(a.T, env.st.alloc))), nil
+	case "newobj":
+		// allocated during the current segment (since function entry or the last loop head): a per-iteration object
+		a, err := argv(0)
+		if err != nil {
+			return Val{}, err
+		}
+		lo := env.oldAlloc
+		if env.st != nil && env.st.segAlloc != nil {
+			lo = env.st.segAlloc
+		}
+		if lo == nil {
+			return Val{}, fmt.Errorf("newobj() outside a function body")
+		}
+		return specBool(And(Gt(a.T, lo), Le(a.T, env.st.alloc))), nil
 	case "addr":
 		// address of a struct-typed field of a pointed-to struct (also through embedded structs): addr(p.f)
 		if len(e.Args) != 1 || e.Args[0].Kind != "sel" {
